@@ -30,6 +30,12 @@ import (
 var sharedFields = map[string]bool{"pending": true, "queue": true, "beats": true, "priced": true,
 	"currentState": true, "pendingNonces": true, "currentMaxGas": true, "locals": true, "gasPrice": true}
 
+// request merging of scheduleReorgLoop as the model's sched_merge states it: the
+// first reset request is kept, a later one replaces its new head unconditionally;
+// promotion requests are united
+const schedResetExpected = `if reset == nil { reset = req } else { reset.newHead = req.newHead } launchNextRun = true pool.reorgDoneCh <- nextDone`
+const schedPromoteExpected = `if dirtyAccounts == nil { dirtyAccounts = req } else { dirtyAccounts.merge(req) } launchNextRun = true pool.reorgDoneCh <- nextDone`
+
 const evictExpected = `pool.mu.Lock() for addr := range pool.queue { if pool.locals.contains(addr) { continue } if time.Since(pool.beats[addr]) > pool.config.Lifetime { for _, tx := range pool.queue[addr].Flatten() { pool.removeTx(tx.Hash(), true) } } } pool.mu.Unlock()`
 
 type method struct {
@@ -56,6 +62,7 @@ type scanner struct {
 	fn    string
 	m     *method
 	evict *string
+	sched map[string]string
 	// read-locked regions (pool.mu.RLock held, not Lock)
 	read      bool
 	hasRead   bool
@@ -111,6 +118,20 @@ func (s *scanner) visit(n ast.Node, held bool) {
 						body.WriteString(" ")
 					}
 					*s.evict = strings.Join(strings.Fields(body.String()), " ")
+				}
+			}
+			if s.fn == "scheduleReorgLoop" && y.Comm != nil && s.sched != nil {
+				var b bytes.Buffer
+				printer.Fprint(&b, s.fset, y.Comm)
+				for _, ch := range []string{"reqResetCh", "reqPromoteCh"} {
+					if strings.Contains(b.String(), "pool."+ch) {
+						var body bytes.Buffer
+						for _, st := range y.Body {
+							printer.Fprint(&body, s.fset, st)
+							body.WriteString(" ")
+						}
+						s.sched[ch] = strings.Join(strings.Fields(body.String()), " ")
+					}
 				}
 			}
 			if y.Comm != nil {
@@ -349,6 +370,7 @@ func locksCmd(out string) {
 	var regions []readRegion
 	goEntry := map[string]bool{}
 	evict := ""
+	sched := map[string]string{}
 	for _, d := range f.Decls {
 		fd, ok := d.(*ast.FuncDecl)
 		if !ok || fd.Body == nil {
@@ -374,7 +396,7 @@ func locksCmd(out string) {
 			continue
 		}
 		m := &method{name: fd.Name.Name, fieldsUnlocked: map[string]bool{}, fieldsLocked: map[string]bool{}, callsUnlocked: map[string]bool{}, callsLocked: map[string]bool{}}
-		sc := &scanner{fset: fset, recv: recv, fn: fd.Name.Name, m: m, evict: &evict, callsRead: map[string]bool{}}
+		sc := &scanner{fset: fset, recv: recv, fn: fd.Name.Name, m: m, evict: &evict, sched: sched, callsRead: map[string]bool{}}
 		sc.walk(fd.Body.List, false)
 		ms = append(ms, m)
 		if sc.hasRead {
@@ -442,5 +464,8 @@ func locksCmd(out string) {
 	sb.WriteString("].\n")
 	sb.WriteString(fmt.Sprintf("(* body of the eviction branch of TxPool.loop, as found: %s *)\n", strings.ReplaceAll(evict, "*)", "* )")))
 	sb.WriteString("Definition c20_evict_branch_as_modelled : bool := " + vf.Bool(evict == evictExpected) + ".\n")
+	sb.WriteString(fmt.Sprintf("(* request merging in scheduleReorgLoop, as found:\n   reset:   %s\n   promote: %s *)\n",
+		strings.ReplaceAll(sched["reqResetCh"], "*)", "* )"), strings.ReplaceAll(sched["reqPromoteCh"], "*)", "* )")))
+	sb.WriteString("Definition c20_sched_merge_as_modelled : bool := " + vf.Bool(sched["reqResetCh"] == schedResetExpected && sched["reqPromoteCh"] == schedPromoteExpected) + ".\n")
 	vf.WriteIfChanged(out, sb.String())
 }
